@@ -13,6 +13,7 @@ import (
 	"io"
 	"net/http"
 	"net/url"
+	"strconv"
 	"strings"
 	"time"
 
@@ -124,6 +125,21 @@ func resign(secret, name, cookieValue string) string {
 	return parts[0] + "|" + parts[1] + "|" + sig
 }
 
+// restamp: the same signed value as a replica of this proxy (same secret) would have issued it `delta` later or
+// earlier by its own clock
+func restamp(secret, name, cookieValue string, delta time.Duration) string {
+	parts := strings.Split(cookieValue, "|")
+	if len(parts) != 3 {
+		return cookieValue
+	}
+	ts, err := strconv.ParseInt(parts[1], 10, 64)
+	if err != nil {
+		return cookieValue
+	}
+	parts[1] = strconv.FormatInt(ts+int64(delta/time.Second), 10)
+	return resign(secret, name, strings.Join(parts, "|"))
+}
+
 func init() {
 	registerSuite("e2e-login", func(c *suiteCtx) {
 		type lcfg struct {
@@ -134,6 +150,7 @@ func init() {
 			advertise   []string // PKCE methods the identity provider's discovery document advertises (nil = both)
 			entra       bool     // provider variant: Microsoft Entra ID, multi-tenant with an allowed-tenants list
 			skipButton  bool     // skip-provider-button: unauthenticated page requests start a login implicitly
+			csrfZero    bool     // cookie-csrf-expire=0: the CSRF cookie is a browser-session cookie
 		}
 		var cfgs []lcfg
 		for _, perReq := range []bool{false, true} {
@@ -150,12 +167,16 @@ func init() {
 		// provider variant with its own ValidateSession in front of the generic one
 		cfgs = append(cfgs, lcfg{entra: true}, lcfg{entra: true, pkce: "S256", perReq: true})
 		cfgs = append(cfgs, lcfg{skipButton: true, pkce: "S256"}, lcfg{skipButton: true, pkce: "plain", perReq: true}, lcfg{skipButton: true})
+		cfgs = append(cfgs, lcfg{csrfZero: true}, lcfg{csrfZero: true, perReq: true, pkce: "S256"})
 		u := defaultUser()
 		for _, lc := range cfgs {
 			cfg := proxyCfg{CSRFPerRequest: lc.perReq, EncodeState: lc.enc, PKCE: lc.pkce, SkipNonce: lc.skipNonce, Redis: lc.redis, InjectRequest: defaultInject(),
 				IdPAdvertisedPKCE: lc.advertise, SkipProviderButton: lc.skipButton}
 			if lc.entra {
 				cfg.ProviderType, cfg.EntraAllowedTenants, cfg.SkipIssuerCheck = "entra-id", []string{"tenant-1", "tenant-2"}, true
+			}
+			if lc.csrfZero {
+				cfg.CSRFExpire = -1
 			}
 			e, err := newEnv(c, cfg)
 			if err != nil {
@@ -249,6 +270,17 @@ func init() {
 					// two cookies of the SAME name cannot coexist in a browser jar for one path/domain
 					{"both", lb.cookie + "; " + sl.cookie, true, lb.name == sl.name},
 					{"both-tampered-first", tamperMid(sl.cookie) + "; " + sl.cookie, true, false},
+					// the own cookie FOLLOWED by same-name cookies this proxy never issued (a second deployment on the parent
+					// domain, a rotated-out secret, a damaged leftover): the own one is there, unmodified
+					{"own-then-foreign", sl.cookie + "; " + sl.name + "=" + resign("some-other-secret-some-other-secr", sl.name, strings.SplitN(sl.cookie, "=", 2)[1]), true, false},
+					{"own-then-tampered", sl.cookie + "; " + tamperMid(sl.cookie), true, false},
+					{"own-then-garbage", sl.cookie + "; " + sl.name + "=x", true, false},
+					// the cookie as a replica with the same configuration issues it when its clock is two minutes ahead / behind
+					// (inside the five minutes the proxy allows for): still this login's own cookie
+					{"replica-clock+2m", sl.name + "=" + restamp(e.opts.Cookie.Secret, sl.name, strings.SplitN(sl.cookie, "=", 2)[1], 2*time.Minute), true, false},
+					{"replica-clock-2m", sl.name + "=" + restamp(e.opts.Cookie.Secret, sl.name, strings.SplitN(sl.cookie, "=", 2)[1], -2*time.Minute), true, false},
+					// ... and six minutes ahead: issue time too far in the future, never accepted
+					{"replica-clock+6m", sl.name + "=" + restamp(e.opts.Cookie.Secret, sl.name, strings.SplitN(sl.cookie, "=", 2)[1], 6*time.Minute), false, false},
 				}
 				if other != sl {
 					variants = append(variants, variant{"other-login", other.cookie, false, false},
